@@ -141,11 +141,22 @@ func TestParamsExactPowers(t *testing.T) {
 //	0 random hash                      3 exactly s-1 zeros, value just above T (d < lx+1: must not be required, may be rejected)
 //	1 >= s trailing zeros              4 exactly s-1 zeros, value at/just below T (d >= lx+1: must be found)
 //	2 fewer than s-1 zeros             5 exactly s-1 zeros, random value
+//	6 / 7 exactly s-1 zeros, above / below T by a value of random magnitude
+//	8 exactly s-1 zeros, the smallest values with difficulty < len*target (d = lx-1: must not be returned)
 type laneCase struct {
 	DataLen int    `json:"data_len"`
 	Target  uint64 `json:"target"`
 	Seed    uint64 `json:"seed"`
 	Kinds   []int  `json:"kinds"` // 64 entries
+}
+
+// magnitude returns a value in [3^e, 3^(e+1)) for a uniformly chosen e < n.
+func magnitude(sd *uint64, n int) *big.Int {
+	e := int(splitmix(sd) % uint64(n))
+	lo := ref.Pow3(e)
+	r := new(big.Int).SetUint64(splitmix(sd))
+	r.Lsh(r, 330).Mod(r, new(big.Int).Mul(lo, big.NewInt(2)))
+	return r.Add(r, lo)
 }
 
 func checkLanes(c laneCase) (h.Info, error) {
@@ -193,7 +204,7 @@ func checkLanes(c laneCase) (h.Info, error) {
 				z = int(splitmix(&sd) % uint64(s-1))
 			}
 			tr = rnd(z)
-		case 3, 4, 5:
+		case 3, 4, 5, 6, 7, 8:
 			// exactly s-1 trailing zeros: value v in [3^(243-s), 3^(243-s+1))
 			lo, hi := ref.Pow3(243-s), ref.Pow3(243-s+1)
 			var v *big.Int
@@ -202,6 +213,13 @@ func checkLanes(c laneCase) (h.Info, error) {
 				v = new(big.Int).Add(T, big.NewInt(1+int64(splitmix(&sd)%3)))
 			case 4: // at or just below T
 				v = new(big.Int).Sub(T, big.NewInt(int64(splitmix(&sd)%3)))
+			case 8: // the smallest values whose difficulty is below len*target: must never be returned
+				v = new(big.Int).Quo(ref.Pow3(243), lx)
+				v.Add(v, big.NewInt(1+int64(splitmix(&sd)%3)))
+			case 6: // above T by 3^e, e anywhere below T's own magnitude (agrees with T in its leading trits)
+				v = new(big.Int).Add(T, magnitude(&sd, 243-s))
+			case 7: // below T by 3^e
+				v = new(big.Int).Sub(T, magnitude(&sd, 243-s))
 			default:
 				span := new(big.Int).Sub(hi, lo)
 				r := new(big.Int).SetUint64(splitmix(&sd))
@@ -271,6 +289,9 @@ func genLanes(t *rapid.T) laneCase {
 	c := laneCase{DataLen: rapid.IntRange(0, 100).Draw(t, "dl"), Seed: rapid.Uint64().Draw(t, "seed"), Kinds: make([]int, 64)}
 	ell := uint64(c.DataLen + 8)
 	s := rapid.IntRange(2, 30).Draw(t, "s")
+	if h.Pick(t, "huge", 3, 1) == 1 { // len*target up to 2^64
+		s = h.OneOf(t, "shuge", 31, 33, 35, 37, 38, 39, 40, 40, 40, 40)
+	}
 	p := ref.Pow3(s).Uint64()
 	switch h.Pick(t, "tk", 2, 2, 2) {
 	case 0:
@@ -289,14 +310,14 @@ func genLanes(t *rapid.T) laneCase {
 		c.Target = 1
 	}
 	// background: mostly non-qualifying lanes (kinds 0, 2, 3), then 0..3 interesting lanes
-	bg := h.Pick(t, "bg", 3, 3, 2)
+	bg := h.Pick(t, "bg", 3, 3, 2, 2, 2)
 	for j := range c.Kinds {
-		c.Kinds[j] = []int{0, 2, 3}[bg]
+		c.Kinds[j] = []int{0, 2, 3, 6, 8}[bg]
 	}
 	k := rapid.IntRange(0, 3).Draw(t, "k")
 	for i := 0; i < k; i++ {
 		lane := h.OneOf(t, "lane", 0, 63, rapid.IntRange(0, 63).Draw(t, "anylane"))
-		c.Kinds[lane] = h.OneOf(t, "kind", 1, 3, 4, 4, 5)
+		c.Kinds[lane] = h.OneOf(t, "kind", 1, 3, 4, 4, 5, 6, 7, 8)
 	}
 	return c
 }
@@ -306,6 +327,6 @@ func TestLanes(t *testing.T) {
 		Prop: "C12", Name: "lane-test(hook)", N: 8000,
 		Gen: genLanes, Check: checkLanes,
 		Require: []string{"lanes/none-qualifies+bigint-stage", "lanes/qualifying-lane0+bigint-stage", "lanes/qualifying-lane63+bigint-stage", "lanes/qualifying-middle+bigint-stage"},
-		Rule:    "hook: 64-lane bit planes for drawn (len, target) with s = 2..30: background lanes (random / too few zeros / exactly s-1 zeros with value just above the target hash) plus up to 3 interesting lanes at 0, 63 or random (>= s zeros; exactly s-1 zeros with value at / just below / just above the target hash or random); result < 64 => that lane has difficulty >= len*target (sound); some lane with difficulty > len*target => result < 64 (complete); non-trivial = a lane with exactly s-1 zeros exists (big-integer stage reached); distinct by case",
+		Rule:    "hook: 64-lane bit planes for drawn (len, target) with s = 2..40 (len*target up to 2^64): background lanes (random / too few zeros / exactly s-1 zeros with value just above the target hash or above it by a value in [3^e, 3^(e+1)) for every magnitude e, or the smallest values whose difficulty is len*target - 1) plus up to 3 interesting lanes at 0, 63 or random (>= s zeros; exactly s-1 zeros with value at / just below / just above the target hash, above or below it by such a value, or random); result < 64 => that lane has difficulty >= len*target (sound); some lane with difficulty > len*target => result < 64 (complete); non-trivial = a lane with exactly s-1 zeros exists (big-integer stage reached); distinct by case",
 	})
 }
